@@ -422,10 +422,11 @@ func (s *x02Sys) config(c x02Cfg, rng func(int) int) BootstrapConfig {
 
 var x02BubbleRe = regexp.MustCompile(`^goroutine \d+ \[[^\]]*synctest bubble (\d+)[^\]]*\]`)
 
+var x02StackBuf = make([]byte, 1<<20)
+
 // x02Census counts the component's goroutines of the current bubble by kind.
 func x02Census() M {
-	buf := make([]byte, 1<<20)
-	buf = buf[:runtime.Stack(buf, true)]
+	buf := x02StackBuf[:runtime.Stack(x02StackBuf, true)]
 	gs := strings.Split(string(buf), "\n\n")
 	me := ""
 	if m := x02BubbleRe.FindStringSubmatch(gs[0]); m != nil {
@@ -654,7 +655,7 @@ func x02Random(t *testing.T) {
 	rng := vRand()
 	runs := 140
 	if !vQuick() {
-		runs = 1500
+		runs = 1000
 	}
 	if n := vEnvInt("X02_RUNS", 0); n > 0 {
 		runs = n
